@@ -172,9 +172,31 @@ func replayFetchCheckout(c *core.Ctx, lfsBin string, b *behaviour, idx int) (*co
 			if viaConfig && how != "none" {
 				how += " (git config)"
 			}
-			r := w.Env.RunIn(cloneB, nil, nil, 120*time.Second, "git", cmdArgs...)
+			// where the command is run from is a concretisation-only dimension: the root of the work tree or
+			// an (untracked, empty) sub-directory of it, reached by its physical path or through a symlink
+			runDir := cloneB
+			cwdKind := []string{"root", "root-via-symlink", "subdir", "subdir-via-symlink"}[(b.hash/13)%4]
+			if f := os.Getenv("VERIF_C04_CWD"); f != "" {
+				cwdKind = f // debugging aid: force the dimension
+			}
+			os.MkdirAll(filepath.Join(cloneB, "untracked-sub"), 0o755)
+			// the symlink sits at another depth than its target, so that a relative path computed from the
+			// logical directory does not happen to fit the physical one
+			os.MkdirAll(filepath.Join(root, "via", "a", "deeper"), 0o755)
+			link := filepath.Join(root, "via", "a", "deeper", "linkB")
+			os.Symlink(cloneB, link)
+			switch cwdKind {
+			case "root-via-symlink":
+				runDir = link
+			case "subdir":
+				runDir = filepath.Join(cloneB, "untracked-sub")
+			case "subdir-via-symlink":
+				runDir = filepath.Join(link, "untracked-sub")
+			}
+			how += " cwd=" + cwdKind
+			r := w.Env.RunIn(runDir, nil, nil, 120*time.Second, "git", cmdArgs...)
 			mk := func(assertion, why string) *core.Violation {
-				return &core.Violation{Assertion: assertion, Fields: map[string]string{"op": a, "filtered": fmt.Sprint(how != "none")},
+				return &core.Violation{Assertion: assertion, Fields: map[string]string{"op": a, "filtered": fmt.Sprint(!strings.HasPrefix(how, "none")), "cwd": cwdKind},
 					Detail: map[string]interface{}{"why": why, "behaviour": json.RawMessage(b.raw), "exit": r.Code, "output": core.Tail(r.All(), 900), "selection": how, "command": strings.Join(cmdArgs, " ")}}
 			}
 			if r.Code == -2 {
@@ -340,6 +362,6 @@ func init() {
 		for i := 0; i < len(bs); i += len(bs)/4 + 1 {
 			c.Sample(json.RawMessage(bs[i].raw))
 		}
-		c.Assume("include / exclude sets are spelled as exact path lists (given by -I/-X or by lfs.fetchinclude/lfs.fetchexclude, optionally padded with a pattern matching nothing); glob patterns, reference stores, read-only files and `git checkout` driving the filters are not yet in the model; the second clone is made from the bare remote with lfs.url pointing at the fake server")
+		c.Assume("include / exclude sets are spelled as exact path lists (given by -I/-X or by lfs.fetchinclude/lfs.fetchexclude, optionally padded with a pattern matching nothing); the command is run from the root or an untracked sub-directory, by physical path or through a symlink; glob patterns, reference stores, read-only files and `git checkout` driving the filters are not yet in the model; the second clone is made from the bare remote with lfs.url pointing at the fake server")
 	}
 }
